@@ -122,12 +122,18 @@ func runC20(c *Case) {
 					run.Join(ps)
 				}
 			case x < 80:
-				exec(model.Op{Kind: model.OpAdvance, D: time.Duration(1+r.IntN(3)) * time.Second})
+				exec(model.Op{Kind: model.OpAdvance, D: pick(r, []time.Duration{200 * time.Millisecond, 700 * time.Millisecond, time.Second, 1300 * time.Millisecond, 2 * time.Second, 3 * time.Second})})
 			default:
 				h := pick(r, hist)
 				kw := map[string]any{}
 				now := model.Epoch.Add(run.W.Now())
 				ts := func() string { return now.Add(-time.Duration(r.IntN(8)) * time.Second).Format(time.RFC3339) }
+				if h.Match != "exact" && len(pubs) > 0 && chance(r, 35) {
+					// a topic filter together with a publication bound (the bounding
+					// publication may well have gone to another topic)
+					kw["topic"] = pick(r, topics[:4])
+					kw[pick(r, []string{"from_publication", "after_publication", "before_publication", "until_publication"})] = pick(r, pubs[max(0, len(pubs)-6):])
+				}
 				for n := r.IntN(4); n > 0; n-- {
 					switch r.IntN(12) {
 					case 0:
